@@ -17,9 +17,9 @@ LEVEL = "exploration"
 
 PLAN = {
     "quick": {"hashseeds": 12, "shards": 4, "generated": 240, "skip": ["1gid.cif.gz"], "cli_all_variants": False,
-              "timeout": 600, "light_hashseeds": 16, "light_max_cost": 150_000, "adapter_generated": 36},
+              "timeout": 600, "light_hashseeds": 16, "light_max_cost": 150_000, "adapter_generated": 36, "derived_rounds": 1},
     "thorough": {"hashseeds": 48, "shards": 4, "generated": 4000, "skip": [], "cli_all_variants": True,
-                 "timeout": 5400, "light_hashseeds": 80, "light_max_cost": 150_000, "adapter_generated": 600},
+                 "timeout": 5400, "light_hashseeds": 80, "light_max_cost": 150_000, "adapter_generated": 600, "derived_rounds": 8},
 }
 
 ASSUMPTIONS = [
@@ -112,6 +112,30 @@ def adapter_generated_items(tier, seed):
         out.append({"id": "adaptergen/%d" % i, "type": "adapter_gen", "path": os.path.join(TESTS, s.choice(files)),
                     "gen_seed": s.getrandbits(48), "find_gaps": s.random() < 0.25,
                     "flag": s.choice(["-a", "-e", "-e", "", ""]), "cost": 60000})
+    return out
+
+
+DERIVED_SOURCES = ["1ATO.pdb", "488d.pdb", "q-ugg-5k-salt_400-500ns_frame1065.pdb"]
+DERIVED_VARIANTS = ["altloc", "dupatoms", "icode", "models", "twinchain"]
+
+
+def derived_items(tier, seed):
+    """Corpus PDB files with a feature added that no corpus file has (alternate locations with tied occupancies,
+    duplicated atoms, insertion codes, a second model): the reader's choices among atoms, locations and models."""
+    out = []
+    k = 0
+    for rep in range(PLAN[tier]["derived_rounds"]):
+        for src in DERIVED_SOURCES:
+            path = os.path.join(TESTS, src)
+            if not os.path.exists(path):
+                continue
+            for variant in DERIVED_VARIANTS:
+                s = rng.stream(NAME, tier, seed, k, "derived")
+                out.append({"id": "derived/%d-%s-%s" % (k, src.split(".")[0][:6], variant), "type": "derived", "source": path,
+                            "variant": variant, "gen_seed": s.getrandbits(48), "find_gaps": s.random() < 0.3,
+                            "v2": True, "v2_repeat": False, "cli": False,
+                            "lib": PLAN[tier]["cli_all_variants"] and rep == 0, "lib_repeat": False, "cost": 400000})
+                k += 1
     return out
 
 
@@ -327,7 +351,8 @@ def check(tier, seed, workers):
     plan = PLAN[tier]
     tmp = os.path.join(runner.base_tmp(), "c14")
     seeds = hashseeds(tier, seed)
-    items = corpus_items(tier) + tool_items(tier) + generated_items(tier, seed) + adapter_generated_items(tier, seed)
+    items = (corpus_items(tier) + tool_items(tier) + generated_items(tier, seed) + adapter_generated_items(tier, seed)
+             + derived_items(tier, seed))
     timeout = float(os.environ.get("VERIF_BUDGET_S") or 0) * 4 or plan["timeout"]
     context = {}
     cells, nontrivial, rows_total, failures = explore(items, seeds, plan["shards"], workers, timeout, tmp,
@@ -339,7 +364,7 @@ def check(tier, seed, workers):
     # the extra seeds are for hash-order effects in cheap computations: the dear library-level outputs and every
     # second generated-annotation run stay with the main pass
     light_items = [dict(it, lib=False) if it["type"] == "file" else it for it in light_items
-                   if not (it["type"] == "adapter_gen" and int(it["id"].split("/")[1]) % 2)]
+                   if not (it["type"] == "adapter_gen" and int(it["id"].split("/")[1]) % 2) and it["type"] != "derived"]
     if light_seeds and light_items and not failures:
         ctx2 = {}
         c2, nt2, rows2, failures = explore(light_items, light_seeds, 1, workers, timeout, os.path.join(tmp, "light"),
@@ -441,9 +466,11 @@ def check(tier, seed, workers):
     multi = sum(1 for (item, kind), v in nontrivial.items() if v and kind.startswith("all_dot_brackets"))
     kinds = sorted({k for _, k in cells})
     samples = []
-    for it in items[:2] + [x for x in items if x["type"] == "bpseq"][:3] + [x for x in items if x["type"] == "adapter_gen"][:2]:
+    for it in items[:2] + [x for x in items if x["type"] == "bpseq"][:3] + [x for x in items if x["type"] == "adapter_gen"][:2] + [x for x in items if x["type"] == "derived"][:2]:
         if it["type"] == "adapter_gen":
             samples.append({k: it[k] for k in ("id", "path", "gen_seed", "find_gaps", "flag")})
+        elif it["type"] == "derived":
+            samples.append({k: it[k] for k in ("id", "source", "variant", "gen_seed")})
         elif it["type"] == "file":
             samples.append({"id": it["id"], "path": it["path"], "find_gaps": it["find_gaps"]})
         else:
@@ -469,7 +496,8 @@ def check(tier, seed, workers):
         "items": {"corpus_file_x_gap_setting": sum(1 for x in items if x["type"] == "file"),
                   "other_command_line_tools": sum(1 for x in items if x["type"] == "tool"),
                   "generated_structures": sum(1 for x in items if x["type"] == "bpseq"),
-                  "adapter_runs_with_generated_conflicting_annotations": sum(1 for x in items if x["type"] == "adapter_gen")},
+                  "adapter_runs_with_generated_conflicting_annotations": sum(1 for x in items if x["type"] == "adapter_gen"),
+                  "derived_pdb_files_altloc_icode_models_duplicates": sum(1 for x in items if x["type"] == "derived")},
         "cells": len(cells),
         "cells_all_dot_brackets_with_2_or_more_members": multi,
         "output_kinds": kinds,
